@@ -251,7 +251,7 @@ def run(ctx):
     from pynetdicom2 import statuses
     ctx.rule = ('exhaustive product of all 65536 codes x (23 message classes + None); a case is '
                 'non-trivial when the code is 0, a PS3.7 Annex C general code, or lies in a '
-                'service-specific table of the command; distinct by (command field, code)')
+                'service-specific table of the command; distinct by (command field, code); plus, in a fresh process: registrations (single code and range, per command and general) before any look-up and after every code involved was looked up, classification asked from the registering thread and from a long-lived worker thread')
     ctx.exhaustive = True
     ctx.assumptions = [
         'reference table transcribed from PS3.7 Annex C and PS3.4 B.2.3 / C.4.1-C.4.3',
